@@ -76,6 +76,14 @@ CHECKS = {
         "nodelists of size 0..3 from member, wildcard, descendant, empty slice and filter queries. Oracle: reference model, whose matcher is first cross-checked against the regex crate on the same universe.",
    design="4.C10", note="trusted base: regex_ref (backtracking matcher, ~250 lines) validated against the regex crate at start-up; `^`/`$` are assertions; subjects have no line terminators",
    technique="exhaustive enumeration of a bounded regular-expression language x subject strings, and of function-argument tables, against a reference model"),
+ "C09": dict(
+   text="Node sweep: for every document of the universes (odd member names incl. / ~ quotes backslashes control characters, pointer look-alikes such as '0' vs 0, the exhaustive small "
+        "universe, the panel) and every node, reference(normalized path) must return that very node (by address) and reference_mut must give a handle whose write changes exactly "
+        "that node (whole-document comparison against the model's set) for each of five written values; every neighbouring location that does not exist must yield None and leave the "
+        "document untouched. Update histories: breadth-first search over the documents reachable by sequences of writes through the paths of one initial query, de-duplicated on the "
+        "document, each write executed on the implementation and on the reference model (including paths that dangle after an earlier write).",
+   design="4.C09", note="trusted base: normpath and the 15-line model_set; bounds: document universes, written values, history depth",
+   technique="exhaustive node sweep plus explicit-state BFS over update histories, every transition executed on the implementation and a reference model"),
 }
 
 checks = []
